@@ -56,6 +56,7 @@ Definition xml_attr_ok (a : list N) : bool := existsb (beq a) xml_attrs.
 Inductive xforest : list xtok -> Prop :=
 | xf_nil : xforest []
 | xf_text : forall t r, xml_text_ok t = true -> xforest r -> xforest (XT t :: r)
+| xf_ref : forall n r, xml_name_ok n = true -> xforest r -> xforest (XR n :: r)
 | xf_empty : forall n r, xml_name_ok n = true -> xforest r -> xforest (XE n :: r)
 | xf_elem : forall n a body r,
     xml_name_ok n = true -> xml_attr_ok a = true -> xforest body -> xforest r ->
@@ -72,6 +73,7 @@ Fixpoint xchk (st : list (list N)) (l : list xtok) : bool :=
   match l with
   | [] => match st with [] => true | _ => false end
   | XT t :: r => xml_text_ok t && xchk st r
+  | XR n :: r => xml_name_ok n && xchk st r
   | XE n :: r => xml_name_ok n && xchk st r
   | XO n a :: r => xml_name_ok n && xml_attr_ok a && xchk (n :: st) r
   | XC n :: r => match st with
@@ -80,8 +82,9 @@ Fixpoint xchk (st : list (list N)) (l : list xtok) : bool :=
                  end
   end.
 
-(* guard of the MathML theorem: names are clean character data, every function class that is printed
-   through names_[code] has a table entry *)
+(* guard of the MathML theorem: every function class that is printed through names_[code] has a
+   table entry that is an XML name (symbol and function-symbol names are escaped by the printer and
+   need no hypothesis) *)
 Definition mm_function_node (e : expr) : option N :=
   match e with
   | EF1 code _ => if (code =? TC_Not) || (code =? TC_UnevaluatedExpr) then None else Some code
@@ -93,8 +96,7 @@ Definition mm_function_node (e : expr) : option N :=
   | _ => None
   end.
 Definition mm_node_ok (e : expr) : bool :=
-  match node_name e with Some nm => xml_text_ok nm | None => true end
-  && match mm_function_node e with Some code => xml_name_ok (mathml_name code) | None => true end.
+  match mm_function_node e with Some code => xml_name_ok (mathml_name code) | None => true end.
 Definition mm_guard (e : expr) : bool := all_nodes mm_node_ok e.
 
 (* ================================================================ LaTeX *)
@@ -127,28 +129,17 @@ Definition latex_node_ok (e : expr) : bool :=
   match node_name e with Some nm => tex_name_ok nm | None => true end
   && match e with EFN code _ => negb (code =? TC_FiniteSet) | _ => true end.
 Definition latex_guard (e : expr) : bool := all_nodes latex_node_ok e.
+(* the part of the guard that concerns names only (evidence: why a tree is outside the guard) *)
+Definition latex_names_ok (e : expr) : bool :=
+  all_nodes (fun x => match node_name x with Some nm => tex_name_ok nm | None => true end) e.
 
 (* ================================================================ StringBox *)
 Definition rect (b : sbox) : Prop := Forall (fun l => dwidth l = width b) (lines b).
 Definition rect_b (b : sbox) : bool := forallb (fun l => dwidth l =? width b) (lines b).
 
 (* guard of the Unicode theorem: names are ASCII (StringBox(std::string) takes the byte length as
-   width); no Complex number whose text contains the product sign (its width is one too large, see
-   C44_unicode_rect_refuted).  Complex coefficients of a Mul are printed through their numerator
-   (as_numer_denom), which has the same imaginary part up to a positive factor. *)
+   width, see C44_unicode_rect_refuted) *)
 Definition ascii (s : list N) : bool := forallb (fun c => c <? 128) s.
-Definition cplx_unit (n : number) : bool :=
-  match n with
-  | NCplx _ _ imn imd => (Zpos imd =? 1)%Z && ((imn =? 1)%Z || (imn =? -1)%Z)
-  | _ => true
-  end.
-Definition unum_ok (n : number) : bool := cplx_unit n && cplx_unit (fst (coef_numer_denom n)).
 Definition unicode_node_ok (e : expr) : bool :=
-  match node_name e with Some nm => ascii nm | None => true end
-  && match e with
-     | ENum n => unum_ok n
-     | EAdd c d => unum_ok c && forallb (fun q => unum_ok (snd q)) d
-     | EMul c _ => unum_ok c
-     | _ => true
-     end.
+  match node_name e with Some nm => ascii nm | None => true end.
 Definition unicode_guard (e : expr) : bool := all_nodes unicode_node_ok e.
